@@ -20,13 +20,14 @@ def run_part(seed, budget):
     r = random.Random(seed * 101 + 11)
     failures, hist, distinct, n = [], collections.Counter(), set(), 0
     for i in range(25 * budget):
-        ops, src = [], ["from typing import *", "from apischema import alias", "from apischema.graphql import Query, Mutation, Subscription", ""]
+        ops, src = [], ["from typing import *", "from apischema import alias, schema", "from apischema.graphql import Query, Mutation, Subscription", ""]
         decl = {"query": [], "mutation": [], "subscription": []}
         for j in range(r.randint(2, 5)):
             kind = r.choice(["query", "mutation", "sub", "sub", "sub-resolver"])
             p = r.choice(PARAMS); al = r.choice(ALIASES); how = r.choice(["metadata", "annotated"]) if al else "none"
             fname = f"op{i}_{j}"
-            ptype = f"Annotated[int, alias({al!r})]" if how == "annotated" else "int"
+            # (a constraint that 0 violates: the argument error raised by the resolver names the argument)
+            ptype = f"Annotated[int, alias({al!r}), schema(min=1)]" if how == "annotated" else "Annotated[int, schema(min=1)]"
             md = f", parameters_metadata={{{p!r}: alias({al!r})}}" if how == "metadata" else ""
             if kind in ("query", "mutation"):
                 src += [f"def {fname}({p}: {ptype} = 3) -> int:", f"    return {p} * 10", ""]
@@ -73,6 +74,11 @@ def run_part(seed, budget):
                         else:
                             res = graphql.graphql_sync(schema, q); got = (res.data, str(res.errors)[:100] if res.errors else None); expd = ({fname: exp}, None)
                         if got != expd: why.append("value-given-under-the-published-name-is-not-received"); info.update(query=q, got=repr(got)[:300], expected=repr(expd))
+                        elif word != "subscription":
+                            # an invalid value under the published name: the error is located at the published name
+                            res = graphql.graphql_sync(schema, "%s { %s(%s: 0) }" % (word, fname, want))
+                            msg = str(res.errors[0].message) if res.errors else ""
+                            if ("'loc': [%r]" % want) not in msg: why.append("argument-error-not-located-at-the-published-name"); info.update(error=msg[:200], expected_loc=[want])
                 except Exception as e: why.append("raises:" + type(e).__name__); info["msg"] = str(e)[:200]
                 if why:
                     failures.append({"kind": "P", "k_ok": True, "part": "gql-args", "src": src, "op": op, "aliaser": dn, "why": why, "info": info})
